@@ -14,7 +14,7 @@ from common import *  # noqa
 
 PROP = "C03"
 TABLES = ["C03_AnsiSequences", "C03_Regexes"]
-MODELS = [("c03", "Extract/ExC03.v", "run_C03_all")]
+MODELS = [("c03", "Extract/ExC03.v", "run_C03_all2")]
 
 ESC = "\x1b"
 START = "\x1b[200~"
@@ -135,6 +135,84 @@ class Impl:
             self._reader_fds = (r, w)
         return self._reader._stdin_decoder_cls(errors=self._reader.errors)
 
+    def run_reader(self, calls):
+        """calls: [(sel, rd)] with sel 0 ready / 1 not ready / 2 OSError, rd (0 bytes) / (1) OSError; select and os of
+        posix_utils are replaced by stubs that produce exactly these outcomes"""
+        import types
+        from prompt_toolkit.input import posix_utils as pu
+        state = {"i": 0, "taken": []}
+
+        def fake_select(r, w, x, timeout=None):
+            sel = calls[state["i"]][0]
+            if sel == 2:
+                raise OSError(9, "injected")
+            return (list(r), [], []) if sel == 0 else ([], [], [])
+
+        def fake_read(fd, count):
+            rd = calls[state["i"]][1]
+            if rd[0] == 1:
+                raise OSError(5, "injected")
+            state["taken"] = list(rd[1])
+            return bytes(rd[1])
+        old_sel, old_os = pu.select, pu.os
+        pu.select = types.SimpleNamespace(select=fake_select)
+        pu.os = types.SimpleNamespace(read=fake_read)
+        out = []
+        try:
+            rd = pu.PosixStdinReader(0)
+            for i in range(len(calls)):
+                state["i"] = i
+                state["taken"] = []
+                text = with_watchdog(lambda: rd.read(), 5)
+                out.append([S(text), bool(rd.closed), list(rd._stdin_decoder.getstate()[0]), state["taken"]])
+        except Exception as e:  # noqa
+            out.append([-99])
+        finally:
+            pu.select, pu.os = old_sel, old_os
+        return out
+
+    def reader_real_fd(self):
+        """real descriptors: data, not ready, end of file (then closed for ever), closed descriptor (OSErrors)"""
+        from prompt_toolkit.input.posix_utils import PosixStdinReader
+        r, w = os.pipe()
+        rd = PosixStdinReader(r)
+        try:
+            if rd.read() != "" or rd.closed:
+                return "empty pipe: read() != '' or closed"
+            os.write(w, b"a\xc3")
+            if rd.read() != "a" or rd.closed:
+                return "data 'a' + first byte of a 2-byte sequence: expected 'a'"
+            os.write(w, b"\xa9")
+            if rd.read() != "\xe9":
+                return "second byte of the sequence: expected e-acute"
+            os.close(w)
+            w = None
+            if rd.read() != "" or not rd.closed:
+                return "end of file: expected '' and closed"
+            if rd.read() != "" or not rd.closed:
+                return "after end of file: expected '' and closed"
+        finally:
+            if w is not None:
+                os.close(w)
+            os.close(r)
+        r, w = os.pipe()
+        rd = PosixStdinReader(r)
+        os.close(r)
+        os.close(w)
+        try:
+            t = rd.read()     # select raises OSError (closed := True), os.read raises OSError (data := b"")
+        except Exception as e:  # noqa
+            return "closed descriptor: read() raised %r" % (e,)
+        if t != "" or not rd.closed:
+            return "closed descriptor: expected '' and closed, got %r closed=%r" % (t, rd.closed)
+        return None
+
+    def run_cache(self, queries):
+        from prompt_toolkit.input.vt100_parser import _IsPrefixOfLongerMatchCache
+        c = _IsPrefixOfLongerMatchCache()
+        ans = [bool(c[q]) for q in queries]
+        return [ans, [[S(k), bool(v)] for k, v in c.items()]]
+
     def decode_once(self, bs):
         d = self.decoder()
         text = d.decode(bytes(bs))
@@ -175,12 +253,20 @@ def flat(trace):
     return evs
 
 
+def raise_family(t):
+    """tag of a raising op (RecursionError, status 97, is named: feed() must not recurse per paste)"""
+    return "raise-recursion" if t[6] == 97 else "raise"
+
+
 def oracle_case(impl, case, trace, merged_trace, table):
     """Return None or (clause, family, detail)."""
     Keys = impl.Keys
     if any(t[6] for t in trace):
         t = [t for t in trace if t[6]][0]
-        return ("feed/flush raised or hung (status %d)" % t[6], "raise", "")
+        return ("feed/flush raised or hung (status %d)" % t[6], raise_family(t), "")
+    if merged_trace is not None and any(t[6] for t in merged_trace):
+        t = [t for t in merged_trace if t[6]][0]
+        return ("chunking: the same stream read in one piece raised or hung (status %d)" % t[6], raise_family(t), "")
     fed = "".join(unS(op[1]) for op in case if op[0] == 0)
     evs = flat(trace)
     last = trace[-1] if trace else None
@@ -193,16 +279,56 @@ def oracle_case(impl, case, trace, merged_trace, table):
         if r + pend != fed:
             return ("lossless: carried data + pending (paste buffer, prefix) != characters fed", "lossless-pending",
                     "carried=%r pending=%r" % (r, pend))
-    for k, d in evs:
-        if isinstance(k, Keys) and k == Keys.BracketedPaste and END in d:
-            return ("paste content contains the end mark", "paste", "")
-        if isinstance(k, Keys) and k != Keys.BracketedPaste and d != "":
-            exp = table.get(d)
-            ok = (O_CPR.match(d) and k == Keys.CPRResponse) or (not O_CPR.match(d) and O_MOUSE.match(d) and k == Keys.Vt100MouseEvent)
-            if not ok and not (exp is not None and (exp if isinstance(exp, tuple) else (exp,))[0] == k):
-                return ("decode: key press %r carries %r which is not its escape sequence" % (k, d), "decode", "")
-        if not isinstance(k, Keys) and (k != d or len(d) != 1):
-            return ("raw character key press with different data", "decode", "")
+    # -- decode: the key presses come in groups: all keys of the sequence d (table entry, CPR, mouse report), d as data
+    #    of the first and "" for the others; or one raw character; or one paste event
+    def seq_keys(d):
+        if O_CPR.match(d):
+            return [Keys.CPRResponse]
+        if O_MOUSE.match(d):
+            return [Keys.Vt100MouseEvent]
+        v = table.get(d)
+        if v is None:
+            return None
+        return list(v) if isinstance(v, tuple) else [v]
+    i = 0
+    offs = []          # (stream offset, length of data) of every non-paste group
+    o = 0
+    while i < len(evs):
+        k, d = evs[i]
+        if isinstance(k, Keys) and k == Keys.BracketedPaste:
+            if END in d:
+                return ("paste content contains the end mark", "paste", "")
+            o += len(START) + len(d) + len(END)
+            i += 1
+        elif not isinstance(k, Keys):
+            if k != d or len(d) != 1:
+                return ("raw character key press with different data", "decode", "")
+            if seq_keys(d) is not None:
+                return ("decode: %r was delivered as a raw character although it is a known sequence" % d, "decode", "")
+            offs.append((o, 1))
+            o += 1
+            i += 1
+        else:
+            ks = seq_keys(d) if d != "" else None
+            if ks is None or [e[0] for e in evs[i:i + len(ks)]] != ks or any(e[1] != "" for e in evs[i + 1:i + len(ks)]):
+                return ("decode: key presses %r (data %r) are not the keys of that sequence" % ([e[0] for e in evs[i:i + 3]], d), "decode", "")
+            offs.append((o, len(d)))
+            o += len(d)
+            i += len(ks)
+    # -- longest match: where a key press starts, no longer stretch of the stream (up to the next flush) is a known sequence
+    fl = []
+    n = 0
+    for op in case:
+        if op[0] == 0:
+            n += len(op[1])
+        else:
+            fl.append(n)
+    for (o, ln) in offs:
+        horizon = min([f for f in fl if f >= o + ln] + [len(fed)])
+        for L in range(ln + 1, min(horizon - o, 24) + 1):
+            if seq_keys(fed[o:o + L]) is not None:
+                return ("longest match: %r was decoded on its own although %r, available before any flush, is a known sequence" % (
+                    fed[o:o + ln], fed[o:o + L]), "longest-match", "")
     # -- chunk independence: same keys and same pending state as with adjacent reads merged
     if merged_trace is not None:
         mevs = flat(merged_trace)
@@ -365,6 +491,13 @@ def gen_cases(chk, table):
             for i in range(1, len(s)):
                 for j in range(i + 1, min(len(s), i + 8)):
                     add("paste", [[[0, S(s[:i])], [0, S(s[i:j])], [0, S(s[j:])]]])
+    # 4b. many pastes in ONE read (feed() recursed per paste before 6a14a13), and the same stream read paste by paste
+    for npaste in ((100, 300, 520, 700, 1500) if thorough else (100, 520, 700)):
+        units = [START + rng.choice(["", "x", "a\nb", "\x1b[A", "\x1b[201"]) + END + rng.choice(["", "", "q", "\x1b[B"]) for _ in range(npaste)]
+        whole = "".join(units) + "z\x1b"
+        add("many_pastes", [[[0, S(whole)], [1]],
+                            [[0, S(u)] for u in units] + [[0, S("z\x1b")], [1]],
+                            [[0, S(whole[:len(whole) // 2])], [0, S(whole[len(whole) // 2:])], [1]]])
     # 5. exhaustive schedules (all cut sets x flush after any read) of short strings
     short = ["\x1b[M\x1b", "\x1b[M\x1b[", "\x1b[1;2R", "\x1b[<1;2M", "\x1b[Mab\n", "\x1b[1;5A", "\x1bOP\x1b", "\x1b[A\x1b[B", "\x1b\x1b[A",
              "\x1b[[A", "a\x1bb", "\x1b[1~\x1b", "\x1b[15~", "\x1b[1;", "\x9b\x7f\x00", "\x1b[;;R", "\x1b[1;2\x1b", "\x1b[2\x1b[2~"]
@@ -448,6 +581,33 @@ def utf8_scope(chk):
     return out
 
 
+def gen_reader_cases(chk):
+    rng = chk.rng
+    datas = [[0x61], [0xc3], [0xa9, 0x1b], [0xe7, 0x95], [0x8c], [0xff, 0x41], [0xf0, 0x9f, 0x98], [0x80]]
+    outcomes = [[0, []], [1]] + [[0, d] for d in datas]
+    out = []
+    # every pair of calls over all select outcomes x a few read outcomes, then a data call
+    for s1 in (0, 1, 2):
+        for r1 in outcomes[:5]:
+            for s2 in (0, 1, 2):
+                for r2 in outcomes[:4]:
+                    out.append([[s1, r1], [s2, r2], [0, [0, [0x62]]]])
+    for _ in range(2000 if chk.tier == "thorough" else 300):
+        out.append([[rng.choice([0, 0, 0, 1, 2]), rng.choice(outcomes + outcomes[2:])] for _ in range(rng.randint(1, 8))])
+    return out
+
+
+def gen_cache_cases(chk, table):
+    rng = chk.rng
+    pool = ["\x1b", "\x1b[", "\x1b[1", "\x1b[1;", "\x1b[1;5", "\x1b[1;5A", "\x1b[M", "\x1b[Ma", "\x1b[Mab", "\x1b[Mabc", "\x1b[<", "\x1b[<1;2",
+            "\x1b[12;12", "\x1b[12;12a", "\x1b[12;12R", "a", "", "\x1bO", "\x1bOP", "\x1b[M\n", "\x1b[\u0663", "\x1b[200~", "\x1b[200"]
+    pool += rng.sample(sorted(table), 20)
+    out = [[q] for q in pool]
+    for _ in range(1500 if chk.tier == "thorough" else 250):
+        out.append([rng.choice(pool) for _ in range(rng.randint(2, 12))])
+    return out
+
+
 def decode_ops(byte_ops):
     """text schedule the parser must see: incremental UTF-8/surrogateescape decoding of the reads"""
     dec = codecs.getincrementaldecoder("utf-8")(errors="surrogateescape")
@@ -463,12 +623,12 @@ def show_case(case):
 def main(tier):
     chk = Check(PROP, tier)
     pr = chk.proofs("Props/C03.v", tables=TABLES)
-    okm, logm = build_model("c03", "Extract/ExC03.v", "run_C03_all", tables=TABLES)
+    okm, logm = build_model("c03", "Extract/ExC03.v", "run_C03_all2", tables=TABLES)
     if not okm and not getattr(pr, "gen_ok", True):
         # the table generator failed closed (reported by proof_gate below): go on with the
         # last generated table so that the correspondence run can still find a failing input
         chk.note("gen/gen_t_c03.py failed closed: " + (pr.gen_log or "").strip()[-300:])
-        okm, logm = build_model("c03", "Extract/ExC03.v", "run_C03_all", tables=())
+        okm, logm = build_model("c03", "Extract/ExC03.v", "run_C03_all2", tables=())
     if not okm:
         chk.violation("tie", "model does not build: " + logm[-400:], {"kind": "model-build"}, {"log": logm[-3000:]}, no_input=True)
         return chk.finish()
@@ -583,11 +743,47 @@ def main(tier):
     chk.coverage["traces_validated_against_impl"] += len(us) - nu
     chk.coverage["evaluations"] += len(us)
 
+    # PosixStdinReader.read(): the closed flag and the outcomes of select / os.read as labels (stubbed select and os in
+    # posix_utils), plus real descriptors for end of file and a closed descriptor
+    rcases = gen_reader_cases(chk)
+    rimpl2 = [impl.run_reader(c_) for c_ in rcases]
+    rmodel2 = run_model("c03", [[10, c_] for c_ in rcases])
+    nrd = 0
+    for c_, a, m in zip(rcases, rimpl2, rmodel2):
+        chk.count_case([10, c_], True)
+        if sx_norm(a) != m:
+            nrd += 1
+            if nrd <= 3:
+                chk.violation("correspondence", "PosixStdinReader.read differs from the model: calls (select outcome, os.read outcome)=%r impl (text, closed, undecoded, taken)=%r model=%r" % (c_, sx_norm(a), m),
+                              {"kind": "correspondence", "op": "reader"}, {"reader_calls": c_, "impl": sx_norm(a), "model": m}, no_input=True)
+    real = impl.reader_real_fd()
+    if real:
+        chk.violation("correspondence", "PosixStdinReader on a real descriptor: " + real, {"kind": "correspondence", "op": "reader-real-fd"},
+                      {"what": real}, no_input=True)
+    chk.coverage["input_distribution"]["reader_calls"] = len(rcases)
+    chk.coverage["traces_validated_against_impl"] += len(rcases) - nrd
+
+    # the memo table _IsPrefixOfLongerMatchCache: answers and contents after query histories (fresh instance each)
+    qcases = gen_cache_cases(chk, table)
+    qimpl = [impl.run_cache(q_) for q_ in qcases]
+    qmodel = run_model("c03", [[11, [S(x_) for x_ in q_]] for q_ in qcases])
+    nq = 0
+    for q_, a, m in zip(qcases, qimpl, qmodel):
+        chk.count_case([11, [S(x_) for x_ in q_]], True)
+        if sx_norm(a) != m:
+            nq += 1
+            if nq <= 3:
+                chk.violation("correspondence", "_IsPrefixOfLongerMatchCache differs from the memo-table model: queries=%r impl=%r model=%r" % (q_, sx_norm(a), m),
+                              {"kind": "correspondence", "op": "cache"}, {"queries": q_, "impl": sx_norm(a), "model": m}, no_input=True)
+    chk.coverage["input_distribution"]["cache_histories"] = len(qcases)
+    chk.coverage["traces_validated_against_impl"] += len(qcases) - nq
+
     # extraction/driver cross-check inside Coq on a sample
     k = 600 if chk.tier == "thorough" else 150
-    idx = sorted(chk.rng.sample(range(len(cases)), min(k, len(cases))))
+    small = [i for i in range(len(cases)) if sum(len(op[1]) for op in cases[i] if op[0] == 0) <= 80]
+    idx = sorted(chk.rng.sample(small, min(k, len(small))))
     pairs = [(cases[i], impl_results[i]) for i in idx]
-    bad, logs = vm_crosscheck(PROP, "run_C03_all", "Model.C03_Vt100Parser Model.C03_Vt100Input", pairs, per_file=150)
+    bad, logs = vm_crosscheck(PROP, "run_C03_all2", "Model.C03_Vt100Parser Model.C03_Vt100Input Model.C03_Cache", pairs, per_file=150)
     chk.coverage["vm_compute_crosschecked"] = len(pairs)
     model_bad = set(i for i, (a, m) in enumerate(zip(impl_results, model_results)) if sx_norm(a) != m)
     vm_bad = set(idx[b] for b in bad if isinstance(b, int))
@@ -613,7 +809,11 @@ def main(tier):
                         "and on ESC [ + every tail of length <= %d over it (%d strings)" % (RE_ALPHA, 5 if chk.tier == "thorough" else 4, len(rs)),
                         "UTF-8: the Coq decoder (Model/C03_Vt100Input.v step/dec) was compared with the decoder PosixStdinReader constructs (utf-8, surrogateescape, incremental) on EVERY byte string of length <= %d over the %d class-boundary bytes %r (%d strings), text and undecoded tail; "
                         "assumed beyond: bytes strictly inside a class behave like its boundaries; other stdin encodings are not modelled" % (4 if chk.tier == "thorough" else 3, len(U8_ALPHA), [hex(b) for b in U8_ALPHA], len(us)),
-                        "PosixStdinReader.read's select/os.read/closed handling and termios/raw mode of Vt100Input are outside the model (reads are modelled as the byte strings os.read returned)"]
+                        "PosixStdinReader.read(): the model takes the outcomes of select (ready / not ready / OSError) and os.read (data / b'' / OSError) as labels; the correspondence injects them by replacing "
+                        "posix_utils.select and posix_utils.os with stubs (all pairs of calls + random call sequences) and checks data / not ready / end of file / closed descriptor on real descriptors; "
+                        "the memo table is compared on a fresh _IsPrefixOfLongerMatchCache() per query history (answers and contents); the module-level instance shared by all parsers is assumed to be only ever filled through __missing__",
+                        "no bound on the length of a read: feed() is a loop since 6a14a13 (reads holding 100-700 pastes, 1500 in thorough, are part of every run)",
+                        "termios/raw mode of Vt100Input and stdin encodings other than UTF-8 are outside the model"]
     return chk.finish()
 
 
